@@ -273,12 +273,17 @@ class HttpFacade:
 
     CONTENT_TYPES = ['application/xml; charset="utf-8"', 'text/xml; charset=utf-8', 'text/xml', 'application/xml']
 
-    def __init__(self, fake, fault=None, content_type=None):
+    def __init__(self, fake, fault=None, content_type=None, auth=None):
+        import base64
         import random
         import threading
         from http.server import BaseHTTPRequestHandler, ThreadingHTTPServer
         self.fault = dict(fault or {})
         self.content_type = content_type or self.CONTENT_TYPES[0]
+        # auth = (user, password): the server requires HTTP Basic authentication with exactly these credentials
+        self.auth_value = None if not auth else \
+            'Basic ' + base64.b64encode(('%s:%s' % tuple(auth)).encode('utf-8')).decode('ascii')
+        self.auth_failures = 0
         self.nreq = 0
         self.lock = threading.Lock()
         outer = self
@@ -293,6 +298,13 @@ class HttpFacade:
             def do_POST(self):
                 n = int(self.headers.get('Content-Length', '0'))
                 body = self.rfile.read(n)
+                if outer.auth_value is not None and self.headers.get('Authorization') != outer.auth_value:
+                    outer.auth_failures += 1
+                    self.send_response(401)
+                    self.send_header('WWW-Authenticate', 'Basic realm="c04"')
+                    self.send_header('Content-Length', '0')
+                    self.end_headers()
+                    return
                 with outer.lock:
                     idx = outer.nreq
                     outer.nreq += 1
@@ -350,10 +362,10 @@ class HttpFacade:
     def log(self):
         return self.core.log
 
-    def client(self, default_namespace=None, timeout=5):
+    def client(self, default_namespace=None, timeout=5, creds=None):
         import pywbem
-        conn = pywbem.WBEMConnection('http://' + self.host, default_namespace=default_namespace,
-                                     use_pull_operations=False, timeout=timeout)
+        conn = pywbem.WBEMConnection('http://' + self.host, creds=tuple(creds) if creds else None,
+                                     default_namespace=default_namespace, use_pull_operations=False, timeout=timeout)
         conn.session.trust_env = False
         return conn
 
